@@ -5,14 +5,15 @@
    Model: coq/Model/ClaimTerms.v = the registry model of C09 (Model/Verifreg.v) joined with a sector
    view and transcriptions of the miner's ExtendSectorExpiration2 / ProveCommitSectors3 claim logic.
 
-   FINDINGS (both replayed on the unchanged Rust code, corpus/C10/*.json):
-   the statement "a live sector's verified space is backed by claims whose maximum term reaches the
-   sector's expiration" is REFUTED by the faithful model, in two ways:
-     F4   one claim id listed twice in maintain_claims (the space check counts it twice, the claim
-          left out is never checked against the new expiration);
-     F4b  one sector named by two declarations of the same message (the claims are checked against
-          the first declaration's expiration, the second extension reuses the recorded spaces).
-   The strongest true statement excludes exactly these message shapes (`decls_wf`). *)
+   HISTORY: the faithful model of the code before commit 081fc6c refuted the statement
+   "a live sector's verified space is backed by claims whose maximum term reaches the sector's
+   expiration" in two ways, both replayed on the real code (corpus/C10/F4*.json):
+     F4   one claim id listed twice in maintain_claims (the space check counted it twice, the claim
+          left out was never checked against the new expiration);
+     F4b  one sector named by two declarations of the same message (claims checked against the first
+          declaration's expiration only, the second extension reused the recorded spaces).
+   Commit 081fc6c rejects both message shapes (exit 16); the model transcribes the repaired validator,
+   the full statement is now a theorem, and the two witness messages are kept below as rejected. *)
 From stdpp Require Import gmap.
 From Coq Require Import ZArith List Bool Lia.
 From VF Require Import Gen.Consts Gen.VerifregConsts Base.Corr Base.MapSum Model.Verifreg
@@ -26,20 +27,6 @@ Theorem C10_constants :
   MAXIMUM_VERIFIED_ALLOCATION_TERM = 5 * EPOCHS_IN_YEAR /\ WPOST_PERIOD_DEADLINES = 48.
 Proof. vm_compute. repeat split. Qed.
 
-(* ------------------------------------------------------------------------------------------------
-   verified_weight_backed, as stated in the property (for ALL histories):
-
-     forall w c ops, world_ok w -> Forall cop_caller_ok ops ->
-       let st := crun (cinit w c) ops in
-       forall p n s, sectors st !! (p, n) = Some s ->
-         s_terminated s = false -> s_simple s = true -> max_epoch 0 ops < s_expiration s ->
-         0 < s_vweight s ->
-         exists space, s_vweight s = space * (s_expiration s - s_power_base s) /\
-                       space <= cov (claims (reg (vr st))) p n (s_expiration s)
-
-   where cov cl p n x = total size of the claims of provider p for sector n with x <= term_start +
-   term_max.  It is FALSE: *)
-
 Definition f4_w := {| root := 101; accts := [103; 104; 105; 106; 107]; miners := [108] |}.
 Definition f4_ctrl := [(108, 103)].
 Definition f4_rq (d tmin tmax : Z) :=
@@ -52,77 +39,48 @@ Definition f4_prefix : list cop := [
         (PReqs [f4_rq 0 521034 1104569; f4_rq 1 584133 1099883; f4_rq 2 532657 1729495] []));
   Onboard 351 108 100 986791 [f4_ac 1 0; f4_ac 2 1; f4_ac 3 2]
 ].
-(* F4: claim 3 listed twice instead of claim 2, 76 days before the sector's expiration; the new
-   expiration 1101234 is past claim 2's term end 351 + 1099883 *)
-Definition f4_ops : list cop := f4_prefix ++ [
+(* the F4 message: claim 3 listed twice instead of claim 2, 76 days before the sector's expiration,
+   new expiration past claim 2's term end 351 + 1099883 *)
+Definition f4_msg : cop :=
   Extend2 768099 103 108
     [{| ed_deadline := 0; ed_new_exp := 1101234; ed_sectors := [];
-        ed_claims := [{| sc_sector := 100; sc_maintain := [1; 3; 3]; sc_drop := [] |}] |}]
-].
-(* F4b: the sector in two declarations of one message *)
-Definition f4b_ops : list cop := f4_prefix ++ [
+        ed_claims := [{| sc_sector := 100; sc_maintain := [1; 3; 3]; sc_drop := [] |}] |}].
+(* the F4b message: the sector in two declarations *)
+Definition f4b_msg : cop :=
   Extend2 768099 103 108
     [{| ed_deadline := 0; ed_new_exp := 986791; ed_sectors := [];
         ed_claims := [{| sc_sector := 100; sc_maintain := [1; 2; 3]; sc_drop := [] |}] |};
-     {| ed_deadline := 0; ed_new_exp := 2000000; ed_sectors := [100]; ed_claims := [] |}]
-].
+     {| ed_deadline := 0; ed_new_exp := 2000000; ed_sectors := [100]; ed_claims := [] |}].
 
-Definition uncovered (ops : list cop) : Prop :=
-  let st := crun (cinit f4_w f4_ctrl) ops in
-  exists s, sectors st !! (108, 100) = Some s /\
-    s_terminated s = false /\ s_simple s = true /\ max_epoch 0 ops < s_expiration s /\ 0 < s_vweight s /\
-    (* the last message was accepted well outside the end-of-life window *)
-    snd (cstep (crun (cinit f4_w f4_ctrl) f4_prefix) (last ops (Vr (GetClaims 0 0 [])))) = fail OK /\
-    END_OF_LIFE_CLAIM_DROP_PERIOD < 986791 - 768099 /\
-    forall space, s_vweight s = space * (s_expiration s - s_power_base s) ->
-                  cov (claims (reg (vr st))) 108 100 (s_expiration s) < space.
+(* both are now refused with illegal_argument and change nothing *)
+Example C10_F4_messages_rejected :
+  let st := crun (cinit f4_w f4_ctrl) f4_prefix in
+  cstep st f4_msg = (st, fail ILLEGAL_ARGUMENT) /\ cstep st f4b_msg = (st, fail ILLEGAL_ARGUMENT).
+Proof. vm_compute. split; reflexivity. Qed.
 
-Theorem C10_verified_weight_backed_refuted :
-  world_ok f4_w /\ Forall cop_caller_ok f4_ops /\ uncovered f4_ops.
-Proof.
-  split; [reflexivity|]. split; [repeat constructor; discriminate|].
-  unfold uncovered.
-  set (st := crun (cinit f4_w f4_ctrl) f4_ops).
-  assert (Hs : sectors st !! (108, 100) =
-               Some {| s_activation := 351; s_expiration := 1101234; s_power_base := 768099; s_dweight := 0;
-                       s_vweight := 8584823580917760; s_simple := true; s_terminated := false;
-                       s_backing := [1; 3; 3] |}) by (vm_compute; reflexivity).
-  eexists. split; [exact Hs|]. cbn [s_terminated s_simple s_expiration s_vweight s_power_base].
-  assert (Hc : cov (claims (reg (vr st))) 108 100 1101234 = 17179869184) by (vm_compute; reflexivity).
-  repeat split; try (vm_compute; reflexivity).
-  intros space Hsp. rewrite Hc. lia.
-Qed.
-
-Theorem C10_verified_weight_backed_refuted_two_declarations :
-  world_ok f4_w /\ Forall cop_caller_ok f4b_ops /\ uncovered f4b_ops.
-Proof.
-  split; [reflexivity|]. split; [repeat constructor; discriminate|].
-  unfold uncovered.
-  set (st := crun (cinit f4_w f4_ctrl) f4b_ops).
-  assert (Hs : sectors st !! (108, 100) =
-               Some {| s_activation := 351; s_expiration := 2000000; s_power_base := 768099; s_dweight := 0;
-                       s_vweight := 31745847041458176; s_simple := true; s_terminated := false;
-                       s_backing := [1; 2; 3] |}) by (vm_compute; reflexivity).
-  eexists. split; [exact Hs|]. cbn [s_terminated s_simple s_expiration s_vweight s_power_base].
-  assert (Hc : cov (claims (reg (vr st))) 108 100 2000000 = 0) by (vm_compute; reflexivity).
-  repeat split; try (vm_compute; reflexivity).
-  intros space Hsp. rewrite Hc. lia.
-Qed.
-
-(* The strongest true statement: for all histories in which every ExtendSectorExpiration2 message
-   names each sector in at most one declaration and one claim entry, and lists no claim id twice
-   (decls_wf), every live simple-QAP sector's verified weight is space * (expiration - power_base)
-   for a space covered by claims of that provider and sector whose maximum term reaches the sector's
-   expiration.  ("live" = not terminated and expiring after every epoch seen so far.) *)
-Theorem C10_verified_weight_backed_modulo_malformed_declarations : forall w c ops,
-  world_ok w -> Forall cop_wf ops ->
+(* verified_weight_backed, for ALL histories of registry / datacap messages (not sent by the registry
+   itself), verified onboardings, ExtendSectorExpiration2 messages with arbitrary declarations, claim
+   term extensions, claim removals and terminations: every live simple-QAP sector's verified weight
+   is space * (expiration - power_base_epoch) for a space covered by claims of that provider and
+   sector whose maximum term reaches the sector's expiration.  (live = not terminated and expiring
+   after every epoch at which a message of the history was sent; cov cl p n x = total size of the
+   claims of provider p for sector n with x <= term_start + term_max.) *)
+Theorem C10_verified_weight_backed : forall w c ops,
+  world_ok w -> Forall cop_caller_ok ops ->
   let st := crun (cinit w c) ops in
   forall p n s, sectors st !! (p, n) = Some s ->
     s_terminated s = false -> s_simple s = true -> max_epoch 0 ops < s_expiration s -> 0 < s_vweight s ->
     exists space, s_vweight s = space * (s_expiration s - s_power_base s) /\
                   0 < s_expiration s - s_power_base s /\
                   space <= cov (claims (reg (vr st))) p n (s_expiration s).
-Proof. exact verified_weight_backed_modulo_malformed_declarations. Qed.
+Proof. exact verified_weight_backed. Qed.
+
+(* the repaired validate_extension_declarations accepts a message only if every sector is named by at
+   most one declaration and one claim entry and no claim id is repeated inside an entry, and then it
+   records exactly the spaces the previous validator recorded *)
+Theorem C10_accepted_declarations_are_well_formed : forall cl p ds m,
+  validate_decls cl p ds [] ∅ = Ok m -> validate_decls0 cl p ds ∅ = Ok m /\ decls_wf ds.
+Proof. exact repaired_validator_accepts_only_wf. Qed.
 
 (* at onboarding every claim starts at the sector's activation and the sector's expiration lies
    within [term_start + term_min, term_start + term_max]; the verified weight is the claimed space
@@ -184,7 +142,7 @@ Definition ex_ops : list cop := f4_prefix ++ [
 ].
 
 Example C10_nonvacuous :
-  Forall cop_wf ex_ops /\
+  Forall cop_caller_ok ex_ops /\
   let st := crun (cinit f4_w f4_ctrl) ex_ops in
   covered_b st (max_epoch 0 ex_ops) = true /\
   option_map s_vweight (sectors st !! (108, 100)) = Some (2 * 8589934592 * (1200000 - 985791)) /\
@@ -194,12 +152,9 @@ Example C10_nonvacuous :
   snd (cstep (crun (cinit f4_w f4_ctrl) f4_prefix)
          (Extend2 (986791 - 288000) 103 108
             [{| ed_deadline := 0; ed_new_exp := 1100000; ed_sectors := [];
-                ed_claims := [{| sc_sector := 100; sc_maintain := [1; 3]; sc_drop := [2] |}] |}])) = fail FORBIDDEN /\
-  covered_b (crun (cinit f4_w f4_ctrl) f4_ops) (max_epoch 0 f4_ops) = false /\
-  covered_b (crun (cinit f4_w f4_ctrl) f4b_ops) (max_epoch 0 f4b_ops) = false.
+                ed_claims := [{| sc_sector := 100; sc_maintain := [1; 3]; sc_drop := [2] |}] |}])) = fail FORBIDDEN.
 Proof.
   split.
-  - repeat constructor; try discriminate; cbn; try (intros [|[|]]; discriminate);
-      repeat constructor; cbn; intuition discriminate.
+  - repeat constructor; discriminate.
   - vm_compute. repeat split.
 Qed.
